@@ -25,10 +25,10 @@ type checkDef struct {
 }
 
 var checks = map[string]checkDef{
-	"C01": {pkg: "verif/mc/checks/c01", shapes: []string{"mini", "flat24", "person", "document", "repetition", "readme", "obool", "flat3"}},
+	"C01": {pkg: "verif/mc/checks/c01", shapes: []string{"mini", "flat24", "person", "document", "repetition", "readme", "obool", "flat3", "samename", "reqdeep", "nest3"}},
 	"C02": {pkg: "verif/mc/checks/c02", shapes: []string{"mini", "flat24", "person", "document", "repetition", "readme", "obool", "flat3", "samename", "reqdeep", "nest3"}},
-	"C03": {pkg: "verif/mc/checks/c03", shapes: []string{"mini", "person", "document", "repetition", "readme", "flat3"}},
-	"C04": {pkg: "verif/mc/checks/c04", shapes: []string{"mini", "person", "document", "flat3"}},
+	"C03": {pkg: "verif/mc/checks/c03", shapes: []string{"mini", "person", "document", "repetition", "readme", "flat3", "samename", "reqdeep", "nest3"}},
+	"C04": {pkg: "verif/mc/checks/c04", shapes: []string{"mini", "person", "document", "flat3", "obool"}},
 	"C05": {pkg: "verif/mc/checks/c05"},
 	"C06": {pkg: "verif/mc/checks/c06", shapes: []string{"mini", "flat3"}},
 	"C07": {pkg: "verif/mc/checks/c07"},
